@@ -6,3 +6,4 @@ for p in "$@"; do
   /verif/check $p > /tmp/seedtest.$d.$p.out 2>&1; echo "$d $p exit=$? $(grep -E 'VIOLATION|UNDECIDED|^OK' /tmp/seedtest.$d.$p.out | head -3 | tr '\n' ' ')"
 done
 git -C /repo checkout -- .
+git -C /verif checkout -- evidence 2>/dev/null
